@@ -1,0 +1,149 @@
+//go:build verif
+
+package breaker
+
+// Machine-checked contracts for the circuit breaker (property C47).
+// Comment-only file: it adds no code to the package. Read by /verif/govc.
+
+//@ property C47
+//@ load sync/atomic
+
+// ---- rolling bucket window -------------------------------------------------
+
+// representation invariant of bucketWindow (established by newBuckets,
+// preserved by every method; the fields are private to this file's functions)
+//@ spec func bw_wf(bw *bucketWindow) bool = bw.num >= 1 && len(bw.buf) == bw.num && 0 <= bw.cursor && bw.cursor < bw.num && bw.bucketDur > 0
+
+//@ func (*bucketWindow).hardResetLocked(bw, now)
+//@   loop 1 invariant bounds: -1 <= rangeindex && (rangeindex == -1 || rangeindex < len(bw.buf))
+//@   loop 1 invariant cleared: forall j int :: 0 <= j && j <= rangeindex ==> bw.buf[j].succ == 0 && bw.buf[j].fail == 0 && bw.buf[j].start == now
+//@   ensures all-cleared: forall j int :: 0 <= j && j < len(bw.buf) ==> bw.buf[j].succ == 0 && bw.buf[j].fail == 0 && bw.buf[j].start == now
+//@   ensures realigned: bw.cursor == 0 && bw.lastUpdate == now
+//@   modifies elems(bucket), bucketWindow.cursor, bucketWindow.lastUpdate
+
+//@ func (*bucketWindow).advanceLocked(bw, now)
+//@   requires bw_wf(bw)
+//@   loop 1 invariant iter-range: 0 <= rangeint_iter && rangeint_iter < steps
+//@   loop 1 invariant cursor: bw.cursor == (old(bw.cursor) + int(rangeint_iter)) % bw.num
+//@   loop 1 invariant last: bw.lastUpdate == old(bw.lastUpdate) + rangeint_iter*bucketNanos
+//@   loop 1 invariant cleared: forall k int :: 1 <= k && k <= int(rangeint_iter) ==> bw.buf[(old(bw.cursor)+k)%bw.num].succ == 0 && bw.buf[(old(bw.cursor)+k)%bw.num].fail == 0
+//@   loop 1 invariant untouched: forall j int :: 0 <= j && j < bw.num && !exists(k, 1, int(rangeint_iter)+1, j == (old(bw.cursor)+k)%bw.num) ==> bw.buf[j] == old(bw.buf[j])
+//@   ensures wf: bw_wf(bw)
+//@   ensures same-bucket: now - old(bw.lastUpdate) < int64(bw.bucketDur) ==> bw.cursor == old(bw.cursor) && bw.lastUpdate == old(bw.lastUpdate) && forall j int :: 0 <= j && j < bw.num ==> bw.buf[j] == old(bw.buf[j])
+//@   ensures stale-window: now - old(bw.lastUpdate) >= int64(bw.bucketDur) && (now - old(bw.lastUpdate)) / int64(bw.bucketDur) >= int64(bw.num) ==> bw.cursor == 0 && bw.lastUpdate == now && forall j int :: 0 <= j && j < bw.num ==> bw.buf[j].succ == 0 && bw.buf[j].fail == 0
+//@   ensures rotate-cursor: now - old(bw.lastUpdate) >= int64(bw.bucketDur) && (now - old(bw.lastUpdate)) / int64(bw.bucketDur) < int64(bw.num) ==> bw.cursor == (old(bw.cursor) + int((now - old(bw.lastUpdate)) / int64(bw.bucketDur))) % bw.num
+//@   ensures rotate-clears: now - old(bw.lastUpdate) >= int64(bw.bucketDur) && (now - old(bw.lastUpdate)) / int64(bw.bucketDur) < int64(bw.num) ==> forall k int :: 1 <= k && k <= int((now - old(bw.lastUpdate)) / int64(bw.bucketDur)) ==> bw.buf[(old(bw.cursor)+k)%bw.num].succ == 0 && bw.buf[(old(bw.cursor)+k)%bw.num].fail == 0
+//@   ensures rotate-keeps: now - old(bw.lastUpdate) >= int64(bw.bucketDur) && (now - old(bw.lastUpdate)) / int64(bw.bucketDur) < int64(bw.num) ==> forall j int :: 0 <= j && j < bw.num && !exists(k, 1, int((now - old(bw.lastUpdate)) / int64(bw.bucketDur))+1, j == (old(bw.cursor)+k)%bw.num) ==> bw.buf[j] == old(bw.buf[j])
+//@   ensures covers-now: now - old(bw.lastUpdate) >= int64(bw.bucketDur) ==> bw.lastUpdate <= now && now - bw.lastUpdate < int64(bw.bucketDur)
+//@   modifies elems(bucket), bucketWindow.cursor, bucketWindow.lastUpdate
+
+// window totals as recursive specification functions over the bucket ring
+//@ spec rec func sum_succ(bw *bucketWindow, n int) uint64 = ite(n <= 0, 0, sum_succ(bw, n-1) + bw.buf[n-1].succ)
+//@ spec rec func sum_fail(bw *bucketWindow, n int) uint64 = ite(n <= 0, 0, sum_fail(bw, n-1) + bw.buf[n-1].fail)
+
+//@ func (*bucketWindow).totalsLocked(bw)
+//@   loop 1 invariant bounds: -1 <= rangeindex && (rangeindex == -1 || rangeindex < len(bw.buf))
+//@   loop 1 invariant partial-sums: succ == sum_succ(bw, rangeindex+1) && fail == sum_fail(bw, rangeindex+1)
+//@   ensures totals: result0 == sum_succ(bw, len(bw.buf)) && result1 == sum_fail(bw, len(bw.buf))
+//@   modifies nothing
+
+// ghost outputs: the totals the last add() observed (read by record's contract)
+//@ ghost var last_succ uint64
+//@ ghost var last_fail uint64
+//@ ghost var adv_succ uint64
+//@ ghost var adv_fail uint64
+
+//@ func (*bucketWindow).add(bw, now, success)
+//@   requires bw_wf(bw)
+//@   at call 1 of (*bucketWindow).advanceLocked ghost adv_succ = bw.buf[bw.cursor].succ
+//@   at call 1 of (*bucketWindow).advanceLocked ghost adv_fail = bw.buf[bw.cursor].fail
+//@   ghost last_succ = result0
+//@   ghost last_fail = result1
+//@   ensures wf: bw_wf(bw)
+//@   ensures counts-one-outcome: success ==> bw.buf[bw.cursor].succ == adv_succ + 1 && bw.buf[bw.cursor].fail == adv_fail
+//@   ensures counts-one-failure: !success ==> bw.buf[bw.cursor].fail == adv_fail + 1 && bw.buf[bw.cursor].succ == adv_succ
+//@   ensures returns-window-totals: result0 == sum_succ(bw, bw.num) && result1 == sum_fail(bw, bw.num)
+//@   modifies elems(bucket), bucketWindow.cursor, bucketWindow.lastUpdate
+
+//@ func (*bucketWindow).reset(bw)
+//@   requires bw_wf(bw)
+//@   ensures wf: bw_wf(bw)
+//@   ensures all-cleared: forall j int :: 0 <= j && j < len(bw.buf) ==> bw.buf[j].succ == 0 && bw.buf[j].fail == 0
+//@   modifies elems(bucket), bucketWindow.cursor, bucketWindow.lastUpdate
+
+// ---- state machine ----------------------------------------------------------
+
+//@ spec func cb_wf(b *CircuitBreaker) bool = b.opts != nil && b.buckets != nil && bw_wf(b.buckets)
+
+// ghost flags: which transition requests a call issued
+//@ ghost var asked_open bool
+//@ ghost var asked_closed bool
+//@ ghost var asked_halfopen bool
+//@ ghost var clock_read int64
+
+//@ func (*CircuitBreaker).transitionTo(b, target)
+//@   requires cb_wf(b)
+//@   at call 1 of dynamic ghost clock_read = unixnano(result)
+//@   ensures wf: cb_wf(b)
+//@   ensures reports-change: result == (old(b.state.v) != int32(target))
+//@   ensures reaches-target: b.state.v == int32(target)
+//@   ensures arms-open-timeout: result && target == Open ==> b.openUntil.v == clock_read + int64(b.opts.openTimeout)
+//@   ensures no-rearm: !(result && target == Open) ==> b.openUntil.v == old(b.openUntil.v)
+//@   ensures fresh-window: result && (target == HalfOpen || target == Closed) ==> forall j int :: 0 <= j && j < len(b.buckets.buf) ==> b.buckets.buf[j].succ == 0 && b.buckets.buf[j].fail == 0
+//@   ensures keeps-window: !(result && (target == HalfOpen || target == Closed)) ==> forall j int :: 0 <= j && j < len(b.buckets.buf) ==> b.buckets.buf[j] == old(b.buckets.buf[j])
+//@   modifies CircuitBreaker.state, CircuitBreaker.openUntil, elems(bucket), bucketWindow.cursor, bucketWindow.lastUpdate
+
+//@ func (*CircuitBreaker).toOpen(b)
+//@   requires cb_wf(b)
+//@   ghost asked_open = true
+//@   ensures wf: cb_wf(b)
+//@   ensures b.state.v == int32(Open)
+//@   ensures already-open-keeps-deadline: old(b.state.v) == int32(Open) ==> b.openUntil.v == old(b.openUntil.v)
+//@   ensures b.lastFailure.v == old(b.lastFailure.v) && b.lastSuccess.v == old(b.lastSuccess.v)
+//@   modifies CircuitBreaker.state, CircuitBreaker.openUntil, elems(bucket), bucketWindow.cursor, bucketWindow.lastUpdate
+
+//@ func (*CircuitBreaker).toClosed(b)
+//@   requires cb_wf(b)
+//@   ghost asked_closed = true
+//@   ensures wf: cb_wf(b)
+//@   ensures b.state.v == int32(Closed)
+//@   ensures b.openUntil.v == old(b.openUntil.v)
+//@   modifies CircuitBreaker.state, CircuitBreaker.openUntil, elems(bucket), bucketWindow.cursor, bucketWindow.lastUpdate
+
+//@ func (*CircuitBreaker).toHalfOpen(b)
+//@   requires cb_wf(b)
+//@   ghost asked_halfopen = true
+//@   ensures wf: cb_wf(b)
+//@   ensures b.state.v == int32(HalfOpen)
+//@   ensures b.openUntil.v == old(b.openUntil.v)
+//@   modifies CircuitBreaker.state, CircuitBreaker.openUntil, elems(bucket), bucketWindow.cursor, bucketWindow.lastUpdate
+
+// record: the breaker opens exactly when the windowed totals observed by this
+// call reach the threshold with at least minRequests samples; otherwise it
+// closes exactly when it was probing (half-open).
+//@ spec func open_cond(b *CircuitBreaker, s uint64, f uint64) bool = s+f >= uint64(b.opts.minRequests) && float64(f)/float64(s+f) >= b.opts.failureRate
+
+//@ func (*CircuitBreaker).record(b, success)
+//@   requires cb_wf(b)
+//@   requires !asked_open && !asked_closed
+//@   ensures wf: cb_wf(b)
+//@   ensures opens-exactly-when-threshold-reached: asked_open == open_cond(b, last_succ, last_fail)
+//@   ensures closes-exactly-when-probing-succeeds: asked_closed == (!open_cond(b, last_succ, last_fail) && last_succ+last_fail >= uint64(b.opts.minRequests) && old(b.state.v) == int32(HalfOpen))
+//@   ensures open-state: open_cond(b, last_succ, last_fail) ==> b.state.v == int32(Open)
+
+// tryAcquire: admission.
+//@ func (*CircuitBreaker).tryAcquire(b)
+//@   requires cb_wf(b)
+//@   requires !asked_halfopen
+//@   at call 1 of dynamic ghost clock_read = unixnano(result)
+//@   ensures closed-admits-all: old(b.state.v) == int32(Closed) ==> result0 && !result1 && len(b.semCh) == old(len(b.semCh))
+//@   ensures open-rejects-until-timeout: old(b.state.v) == int32(Open) && clock_read < old(b.openUntil.v) ==> !result0 && !result1 && b.state.v == int32(Open) && !asked_halfopen
+//@   ensures timeout-moves-to-half-open: old(b.state.v) == int32(Open) && clock_read >= old(b.openUntil.v) ==> asked_halfopen && b.state.v == int32(HalfOpen)
+//@   ensures probe-needs-free-slot: result1 ==> old(len(b.semCh)) < cap(b.semCh) && len(b.semCh) == old(len(b.semCh)) + 1
+//@   ensures probes-bounded: old(len(b.semCh)) <= cap(b.semCh) ==> len(b.semCh) <= cap(b.semCh)
+//@   ensures no-slot-no-call: old(b.state.v) != int32(Closed) && !result1 ==> !result0 && len(b.semCh) == old(len(b.semCh))
+//@   ensures token-implies-allowed: result1 ==> result0
+
+//@ func (*CircuitBreaker).release(b)
+//@   requires cb_wf(b)
+//@   ensures len(b.semCh) == old(len(b.semCh)) - 1
